@@ -12,6 +12,14 @@ def col_names(cols: List[Column]) -> str:
     return ', '.join(f'"{c.name}"' for c in cols)
 
 
+def braces(text: str) -> str:
+    '''
+    Double the braces of user supplied text (names, comments): the statement is completed with
+    str.format (for the `{c}` constraint placeholder) after it has been put together.
+    '''
+    return text.replace('{', '{{').replace('}', '}}')
+
+
 def validate_for_sql(model: Reference):
     for col in chain(model.col1, model.col2):
         if col.table is None:
@@ -19,11 +27,10 @@ def validate_for_sql(model: Reference):
 
 
 def generate_inline_sql(model: Reference, source_col: List[Column], ref_col: List[Column]) -> str:
-    # braces of the comment are doubled: the text goes through str.format (for `{c}`) later
-    result = comment_to_sql(model.comment).replace('{', '{{').replace('}', '}}') if model.comment else ''
+    result = braces(comment_to_sql(model.comment)) if model.comment else ''
     result += (
-        f'{{c}}FOREIGN KEY ({col_names(source_col)}) '  # type: ignore
-        f'REFERENCES {get_full_name_for_sql(ref_col[0].table)} ({col_names(ref_col)})'  # type: ignore
+        f'{{c}}FOREIGN KEY ({braces(col_names(source_col))}) '  # type: ignore
+        f'REFERENCES {braces(get_full_name_for_sql(ref_col[0].table))} ({braces(col_names(ref_col))})'  # type: ignore
     )
     if model.on_update:
         result += f' ON UPDATE {model.on_update.upper()}'
@@ -33,12 +40,11 @@ def generate_inline_sql(model: Reference, source_col: List[Column], ref_col: Lis
 
 
 def generate_not_inline_sql(model: Reference, source_col: List['Column'], ref_col: List['Column']):
-    # braces of the comment are doubled: the text goes through str.format (for `{c}`) later
-    result = comment_to_sql(model.comment).replace('{', '{{').replace('}', '}}') if model.comment else ''
+    result = braces(comment_to_sql(model.comment)) if model.comment else ''
     result += (
-        f'ALTER TABLE {get_full_name_for_sql(source_col[0].table)}'  # type: ignore
-        f' ADD {{c}}FOREIGN KEY ({col_names(source_col)})'
-        f' REFERENCES {get_full_name_for_sql(ref_col[0].table)} ({col_names(ref_col)})' # type: ignore
+        f'ALTER TABLE {braces(get_full_name_for_sql(source_col[0].table))}'  # type: ignore
+        f' ADD {{c}}FOREIGN KEY ({braces(col_names(source_col))})'
+        f' REFERENCES {braces(get_full_name_for_sql(ref_col[0].table))} ({braces(col_names(ref_col))})' # type: ignore
     )
     if model.on_update:
         result += f' ON UPDATE {model.on_update.upper()}'
@@ -55,7 +61,7 @@ def generate_many_to_many_sql(model: Reference) -> str:
     ref1_sql = generate_not_inline_sql(model, join_table.columns[:n], model.col1)  # type: ignore
     ref2_sql = generate_not_inline_sql(model, join_table.columns[n:], model.col2)  # type: ignore
 
-    result = '\n\n'.join((table_sql, ref1_sql, ref2_sql))
+    result = '\n\n'.join((braces(table_sql), ref1_sql, ref2_sql))
     return result.format(c='')
 
 
@@ -79,6 +85,6 @@ def render_reference(model: Reference) -> str:
     elif model.type == ONE_TO_MANY:
         result = func(model=model, source_col=model.col2, ref_col=model.col1)
 
-    c = f'CONSTRAINT "{model.name}" ' if model.name else ''
+    c = f'CONSTRAINT "{model.name}" ' if model.name else ''   # inserted by format: not doubled
 
     return result.format(c=c)
